@@ -35,7 +35,17 @@ fn pct(c: &mut Ctx, r: &mut Rng, _i: u64) {
 fn setters(ctx: &mut Ctx, r: &mut Rng, _i: u64) {
     ctx.eval();
     let ring = ring(ctx);
-    let params = gen_params(r, &Focus::default());
+    let mut params = gen_params(r, &Focus::default());
+    // boundary-tuned histories (a quarter): the price per byte is chosen so that the minimum ADA of an ADA-only
+    // return sits next to a CBOR width boundary B of the coin, and the return's coin is placed just above B:
+    // the output is then a few bytes longer than one holding the minimum, and needs more than that minimum
+    let edge: Option<u64> = if r.below(4) == 0 { Some(*r.pick(&[256u64, 65_536, 65_536, 1 << 32])) } else { None };
+    if let Some(b) = edge {
+        // an ADA-only return to a 29..57-byte address is 34..62 bytes long before the coin widens
+        let size_guess = 160 + 34 + r.below(36);
+        params.coins_per_byte = (b / size_guess).max(1);
+        params.max_value_size = params.max_value_size.max(200);
+    }
     let (cfg, _) = make_config(&params, r);
     let mut s = Scn::new(r, ring, Focus::default());
     let mut tb = TransactionBuilder::new(&cfg);
@@ -51,8 +61,11 @@ fn setters(ctx: &mut Ctx, r: &mut Rng, _i: u64) {
     let n = 1 + s.r.below(3);
     let mut sum = Val::default();
     for _ in 0..n {
-        let with_assets = s.r.below(3) == 0;
+        let with_assets = s.r.below(3) == 0 && edge.is_none();
         let mut v = s.gen_val(with_assets);
+        if let Some(b) = edge {
+            v.coin = v.coin.max(2 * b as i128 + 5_000_000);
+        }
         if s.r.below(4) == 0 {
             v.coin = *s.r.pick(&[1_000_000i128, 2_000_000, 65_536, 4_294_967_296, 1_200_000]);
         }
@@ -140,9 +153,13 @@ fn setters(ctx: &mut Ctx, r: &mut Rng, _i: u64) {
             4 => sum.coin / 2,
             _ => (sum.coin - 1_000_000 - s.r.below(3_000_000) as i128).max(0),
         };
+        if let Some(b) = edge {
+            rv.coin = b as i128 + s.r.below(params.coins_per_byte * 12 + 2) as i128 - if s.r.below(8) == 0 { 3 } else { 0 };
+            ctx.bucket("setter.edge-tuned");
+        }
         let mut out = TransactionOutput::new(&ret_addr, &val_to_csl(&rv));
         // the return is a full output: a datum hash / inline datum / script reference counts towards its minimum
-        match s.r.below(8) {
+        match if edge.is_some() { 7 } else { s.r.below(8) } {
             0 => out.set_data_hash(&hash_plutus_data(&PlutusData::new_bytes(vec![7; 12]))),
             1 => out.set_plutus_data(&PlutusData::new_bytes(vec![7; 40])),
             2 => out.set_script_ref(&ScriptRef::new_native_script(&ring.natives[4])),
@@ -165,6 +182,13 @@ fn setters(ctx: &mut Ctx, r: &mut Rng, _i: u64) {
             3 => (sum.coin - 1_000_000 - s.r.below(500_000) as i128).max(0),
             4 => sum.coin / 2,
             _ => s.r.below(sum.coin.max(1) as u64) as i128,
+        };
+        let total = match edge {
+            Some(b) => {
+                ctx.bucket("setter.edge-tuned");
+                sum.coin - (b as i128 + s.r.below(params.coins_per_byte * 12 + 2) as i128 - if s.r.below(8) == 0 { 3 } else { 0 })
+            }
+            None => total,
         };
         let r = guard(|| tb.set_total_collateral_and_return(&BigNum::from(total.max(0) as u64), &ret_addr));
         match r {
